@@ -12,8 +12,8 @@ pub trait TypeFn {
 }
 
 macro_rules! registry {
-    ($(($key:expr, $T:ty, $F:ty, $mant:expr, $ord:ident)),* $(,)?) => {
-        $(impl_calc!($key, $T, $F, $mant, $ord);)*
+    ($(($key:expr, $T:ty, $F:ty, $mant:expr, $ord:ident, $bes:ident)),* $(,)?) => {
+        $(impl_calc!($key, $T, $F, $mant, $ord, $bes);)*
         pub const ALL_KEYS: &[&str] = &[$($key),*];
         pub fn dispatch<V: TypeFn>(key: &str, v: V) -> Option<V::Out> {
             match key {
@@ -25,50 +25,50 @@ macro_rules! registry {
 }
 
 registry! {
-    ("Dual:f64", Dual64, f64, 53, ord),
-    ("Dual:f32", Dual32, f32, 24, ord),
-    ("Dual2:f64", Dual2_64, f64, 53, ord),
-    ("Dual2:f32", Dual2_32, f32, 24, ord),
-    ("Dual3:f64", Dual3_64, f64, 53, noord),
-    ("Dual3:f32", Dual3_32, f32, 24, noord),
-    ("HyperDual:f64", HyperDual64, f64, 53, noord),
-    ("HyperDual:f32", HyperDual32, f32, 24, noord),
-    ("HHD:f64", HyperHyperDual64, f64, 53, noord),
-    ("HHD:f32", HyperHyperDual32, f32, 24, noord),
-    ("DualVec:1:f64", DualSVec64<1>, f64, 53, ord),
-    ("DualVec:2:f64", DualSVec64<2>, f64, 53, ord),
-    ("DualVec:3:f64", DualSVec64<3>, f64, 53, ord),
-    ("DualVec:dyn:f64", DualDVec64, f64, 53, ord),
-    ("DualVec:2:f32", DualSVec32<2>, f32, 24, ord),
-    ("DualVec:dyn:f32", DualDVec32, f32, 24, ord),
-    ("Dual2Vec:1:f64", Dual2SVec64<1>, f64, 53, ord),
-    ("Dual2Vec:2:f64", Dual2SVec64<2>, f64, 53, ord),
-    ("Dual2Vec:3:f64", Dual2SVec64<3>, f64, 53, ord),
-    ("Dual2Vec:dyn:f64", Dual2DVec64, f64, 53, ord),
-    ("Dual2Vec:2:f32", Dual2SVec32<2>, f32, 24, ord),
-    ("Dual2Vec:dyn:f32", Dual2DVec32, f32, 24, ord),
-    ("HyperDualVec:1x1:f64", HyperDualSVec64<1, 1>, f64, 53, noord),
-    ("HyperDualVec:1x2:f64", HyperDualSVec64<1, 2>, f64, 53, noord),
-    ("HyperDualVec:2x1:f64", HyperDualSVec64<2, 1>, f64, 53, noord),
-    ("HyperDualVec:2x2:f64", HyperDualSVec64<2, 2>, f64, 53, noord),
-    ("HyperDualVec:2x3:f64", HyperDualSVec64<2, 3>, f64, 53, noord),
-    ("HyperDualVec:dyn:f64", HyperDualDVec64, f64, 53, noord),
-    ("HyperDualVec:2x2:f32", HyperDualSVec32<2, 2>, f32, 24, noord),
-    ("HyperDualVec:dyn:f32", HyperDualDVec32, f32, 24, noord),
+    ("Dual:f64", Dual64, f64, 53, ord, bes),
+    ("Dual:f32", Dual32, f32, 24, ord, nobes),
+    ("Dual2:f64", Dual2_64, f64, 53, ord, bes),
+    ("Dual2:f32", Dual2_32, f32, 24, ord, nobes),
+    ("Dual3:f64", Dual3_64, f64, 53, noord, bes),
+    ("Dual3:f32", Dual3_32, f32, 24, noord, nobes),
+    ("HyperDual:f64", HyperDual64, f64, 53, noord, bes),
+    ("HyperDual:f32", HyperDual32, f32, 24, noord, nobes),
+    ("HHD:f64", HyperHyperDual64, f64, 53, noord, bes),
+    ("HHD:f32", HyperHyperDual32, f32, 24, noord, nobes),
+    ("DualVec:1:f64", DualSVec64<1>, f64, 53, ord, bes),
+    ("DualVec:2:f64", DualSVec64<2>, f64, 53, ord, bes),
+    ("DualVec:3:f64", DualSVec64<3>, f64, 53, ord, bes),
+    ("DualVec:dyn:f64", DualDVec64, f64, 53, ord, nobes),
+    ("DualVec:2:f32", DualSVec32<2>, f32, 24, ord, nobes),
+    ("DualVec:dyn:f32", DualDVec32, f32, 24, ord, nobes),
+    ("Dual2Vec:1:f64", Dual2SVec64<1>, f64, 53, ord, bes),
+    ("Dual2Vec:2:f64", Dual2SVec64<2>, f64, 53, ord, bes),
+    ("Dual2Vec:3:f64", Dual2SVec64<3>, f64, 53, ord, bes),
+    ("Dual2Vec:dyn:f64", Dual2DVec64, f64, 53, ord, nobes),
+    ("Dual2Vec:2:f32", Dual2SVec32<2>, f32, 24, ord, nobes),
+    ("Dual2Vec:dyn:f32", Dual2DVec32, f32, 24, ord, nobes),
+    ("HyperDualVec:1x1:f64", HyperDualSVec64<1, 1>, f64, 53, noord, bes),
+    ("HyperDualVec:1x2:f64", HyperDualSVec64<1, 2>, f64, 53, noord, bes),
+    ("HyperDualVec:2x1:f64", HyperDualSVec64<2, 1>, f64, 53, noord, bes),
+    ("HyperDualVec:2x2:f64", HyperDualSVec64<2, 2>, f64, 53, noord, bes),
+    ("HyperDualVec:2x3:f64", HyperDualSVec64<2, 3>, f64, 53, noord, bes),
+    ("HyperDualVec:dyn:f64", HyperDualDVec64, f64, 53, noord, nobes),
+    ("HyperDualVec:2x2:f32", HyperDualSVec32<2, 2>, f32, 24, noord, nobes),
+    ("HyperDualVec:dyn:f32", HyperDualDVec32, f32, 24, noord, nobes),
     // nestings (the scalar of a dual number is a dual number)
-    ("Dual<Dual>:f64", Dual<Dual64, f64>, f64, 53, ord),
-    ("Dual<Dual>:f32", Dual<Dual32, f32>, f32, 24, ord),
-    ("Dual<Dual<Dual>>:f64", Dual<Dual<Dual64, f64>, f64>, f64, 53, ord),
-    ("Dual2<Dual>:f64", Dual2<Dual64, f64>, f64, 53, ord),
-    ("Dual3<Dual>:f64", Dual3<Dual64, f64>, f64, 53, noord),
-    ("HyperDual<Dual>:f64", HyperDual<Dual64, f64>, f64, 53, noord),
-    ("Dual<Dual2>:f64", Dual<Dual2_64, f64>, f64, 53, ord),
-    ("Dual2<Dual2>:f64", Dual2<Dual2_64, f64>, f64, 53, ord),
-    ("HHD<Dual>:f64", HyperHyperDual<Dual64, f64>, f64, 53, noord),
-    ("Dual<DualVec:2>:f64", Dual<DualSVec64<2>, f64>, f64, 53, ord),
-    ("DualVec:2<Dual>:f64", DualVec<Dual64, f64, nalgebra::Const<2>>, f64, 53, ord),
-    ("DualVec:dyn<Dual>:f64", DualVec<Dual64, f64, nalgebra::Dyn>, f64, 53, ord),
-    ("Dual2Vec:2<Dual>:f64", Dual2Vec<Dual64, f64, nalgebra::Const<2>>, f64, 53, ord),
+    ("Dual<Dual>:f64", Dual<Dual64, f64>, f64, 53, ord, bes),
+    ("Dual<Dual>:f32", Dual<Dual32, f32>, f32, 24, ord, nobes),
+    ("Dual<Dual<Dual>>:f64", Dual<Dual<Dual64, f64>, f64>, f64, 53, ord, bes),
+    ("Dual2<Dual>:f64", Dual2<Dual64, f64>, f64, 53, ord, bes),
+    ("Dual3<Dual>:f64", Dual3<Dual64, f64>, f64, 53, noord, bes),
+    ("HyperDual<Dual>:f64", HyperDual<Dual64, f64>, f64, 53, noord, bes),
+    ("Dual<Dual2>:f64", Dual<Dual2_64, f64>, f64, 53, ord, bes),
+    ("Dual2<Dual2>:f64", Dual2<Dual2_64, f64>, f64, 53, ord, bes),
+    ("HHD<Dual>:f64", HyperHyperDual<Dual64, f64>, f64, 53, noord, bes),
+    ("Dual<DualVec:2>:f64", Dual<DualSVec64<2>, f64>, f64, 53, ord, bes),
+    ("DualVec:2<Dual>:f64", DualVec<Dual64, f64, nalgebra::Const<2>>, f64, 53, ord, bes),
+    ("DualVec:dyn<Dual>:f64", DualVec<Dual64, f64, nalgebra::Dyn>, f64, 53, ord, nobes),
+    ("Dual2Vec:2<Dual>:f64", Dual2Vec<Dual64, f64, nalgebra::Const<2>>, f64, 53, ord, bes),
 }
 
 /// descriptor strings of a (possibly nested) TLC type descriptor; vector kinds yield the
